@@ -49,6 +49,8 @@ def signature(case):
         for x in gv.walk(d):
             if x[0] == "flag" and not x[2]:
                 sigs.add("empty-flag")
+            if x[0] == "dinit":
+                sigs.add("init-false-field")
     return sigs
 
 
